@@ -186,6 +186,33 @@ func execRoundTrip(c rtCase) *evid.Failure {
 		if !refcodec.Equal(got, c.Msg, datagram) {
 			return evid.Failf("roundtrip/pool-unmarshal-differs", c, "UnmarshalWithDecoder (round %d) gives %+v", round, got)
 		}
+		// the decoded message is used again, as a handler or a forwarder does: its body is taken
+		// away or replaced, and it is encoded once more
+		for step, payload := range [][]byte{nil, []byte("second body"), nil} {
+			m2 := c.Msg
+			m2.Payload = payload
+			var want2 []byte
+			if c.Stream {
+				want2, err = refcodec.EncodeStream(m2)
+			} else {
+				want2, err = refcodec.EncodeDatagram(m2)
+			}
+			if err != nil {
+				break
+			}
+			if payload == nil {
+				rm.SetBody(nil)
+			} else {
+				rm.SetBody(bytes.NewReader(payload))
+			}
+			out2, err := rm.MarshalWithEncoder(cd)
+			if err != nil {
+				return evid.Failf("roundtrip/pool-reencode-error", c, "MarshalWithEncoder of the decoded message after SetBody (round %d, step %d): %v", round, step, err)
+			}
+			if !bytes.Equal(out2, want2) {
+				return evid.Failf("roundtrip/pool-reencode-differs", c, "decoded message, body set to %q, encoded again (round %d, step %d): bytes %s\nreference %s", payload, round, step, short(out2), short(want2))
+			}
+		}
 		p.ReleaseMessage(pm)
 		p.ReleaseMessage(rm)
 	}
